@@ -432,7 +432,8 @@ def short_reads():
               ("Int64", T.Int64, -2 ** 40), ("Float64", T.Float64, 1.5), ("Boolean", T.Boolean, True),
               ("String", T.String("utf-8"), "abc"), ("Bytes", T.Bytes, b"abcd"), ("Array(Int32)", T.Array(T.Int32), [1, 2]),
               ("CompactString", T.CompactString("utf-8"), "abc"), ("CompactBytes", T.CompactBytes, b"abcd"),
-              ("CompactArray(Int16)", T.CompactArray(T.Int16), [1, 2])]
+              ("CompactArray(Int16)", T.CompactArray(T.Int16), [1, 2]),
+              ("TaggedFields", T.TaggedFields, {0: b"abcd", 5: b"xyz"})]
     cases, fails = 0, []
     for name, ty, val in values:
         enc = ty.encode(val)
@@ -449,7 +450,7 @@ def short_reads():
 def enum_short_reads():
     cases, fails = short_reads()
     emit({"name": "short-reads-raise", "exhaustive": True, "cases": cases, "distinct_nontrivial": cases,
-          "bound": "one value of each of the 13 primitive / length-prefixed wire types, every proper prefix of its encoding",
+          "bound": "one value of each of the 14 primitive / length-prefixed wire types (tagged fields included), every proper prefix of its encoding",
           "failures": fails[:10], "failures_total": len(fails), "replay": {"script": SHORT_SCRIPT}})
 
 
